@@ -183,3 +183,126 @@ def checks(tier):
                outside="hooks; racing pushers (C08 covers the underlying compare-and-swap); MemoryRepo as server backend (its add_thin_pack lacks the max_input_size argument the handler passes: TypeError, noted in DESIGN.md); the local push path",
                tiers=q),
     ]
+
+
+# ---------------------------------------------------------------------------------------------
+# (b) the in-process push path (LocalGitClient.send_pack) with another actor changing the ref between the pusher's
+#     snapshot of the remote refs and its updates
+_b06b = checks
+R1, R2 = b"refs/heads/one", b"refs/heads/two"
+
+
+def h_local_push(eng, atomic=False, ncmd=1):
+    from dulwich.client import LocalGitClient
+    d_src, d_dst = scratch("c06s"), scratch("c06d")
+    try:
+        src = Repo.init_bare(d_src)
+        dst = Repo.init_bare(d_dst)
+        for k in "ABCD":
+            for o in OBJ[k]:
+                src.object_store.add_object(o)
+        for k in "AB":
+            for o in OBJ[k]:
+                dst.object_store.add_object(o)
+        vals = [None, SHA["A"], SHA["B"]]
+        s1 = vals[eng.choice("r1_before", 3)]
+        s2 = vals[eng.choice("r2_before", 2)]
+        for ref, v in ((R1, s1), (R2, s2)):
+            if v is not None:
+                dst.refs[ref] = v
+        if eng.bool("packed"):
+            dst.refs.pack_refs(all=True)
+        new1 = [SHA["C"], ZERO][eng.choice("new1", 2)]
+        cmds = {R1: new1}
+        if ncmd == 2:
+            cmds[R2] = [SHA["D"], ZERO][eng.choice("new2", 2)]
+        mut = eng.choice("concurrent_change_of_r1", 4)          # none, set A, set B, delete
+        m1 = [s1, SHA["A"], SHA["B"], None][mut]
+        dst.close()
+
+        def update_refs(old):
+            out = dict(old)
+            out.update(cmds)
+            return out
+
+        def gen(have, want, ofs_delta=True, progress=None):
+            other = Repo(d_dst)                                  # the other actor, a separate process' view
+            try:
+                if mut in (1, 2):
+                    other.refs[R1] = m1
+                elif mut == 3 and s1 is not None:
+                    del other.refs[R1]
+            finally:
+                other.close()
+            return src.generate_pack_data(have, want, ofs_delta=ofs_delta, progress=progress)
+        try:
+            res = LocalGitClient().send_pack(d_dst, update_refs, gen, atomic=atomic)
+            status = dict(res.ref_status or {})
+        except Exception as e:
+            eng.fail(f"push raised {type(e).__name__}: {e}")
+            return
+        fin = Repo(d_dst)
+        try:
+            tag = (f"[r1 {s1 and s1[:4]} -> concurrently {m1 and m1[:4]}, r2 {s2 and s2[:4]}; push {[(k, v[:4]) for k, v in cmds.items()]} "
+                   f"atomic={atomic}; status={status}]")
+            mid = {R1: m1, R2: s2}
+            snap = {R1: s1, R2: s2}
+            rejected_any = False
+            for ref, new in cmds.items():
+                want = None if new == ZERO else new
+                try:
+                    cur = fin.refs[ref]
+                except KeyError:
+                    cur = None
+                ok = status.get(ref) is None
+                stale = mid[ref] != snap[ref]
+                if stale and cur == want and want is None:
+                    continue                      # corner where both clauses of the property apply (deleting a ref already gone)
+                if snap[ref] is None and new == ZERO:
+                    continue                      # deleting a ref that never existed: either report is acceptable
+                if stale:
+                    rejected_any = True
+                    eng.prove(not ok, f"{tag} {ref!r} changed after the pusher looked: its update must be reported as rejected")
+                    eng.prove(cur == mid[ref], f"{tag} {ref!r} changed after the pusher looked: it must be left untouched (now {cur and cur[:4]})")
+                elif not atomic:
+                    eng.prove(ok and cur == want, f"{tag} {ref!r} was as the pusher saw it: update applied and reported ok (now {cur and cur[:4]})")
+            if atomic:
+                rejected_any = any(status.get(ref) is not None for ref in cmds)
+                for ref, new in cmds.items():
+                    want = None if new == ZERO else new
+                    try:
+                        cur = fin.refs[ref]
+                    except KeyError:
+                        cur = None
+                    if snap[ref] is None and new == ZERO and not rejected_any:
+                        continue
+                    if rejected_any:
+                        eng.prove(cur == mid[ref], f"{tag} atomic push with a rejected update applied nothing ({ref!r} now {cur and cur[:4]})")
+                        eng.prove(status.get(ref) is not None, f"{tag} atomic push with a rejected update reports every ref as failed")
+                    elif mid[ref] == snap[ref]:
+                        eng.prove(cur == want and status.get(ref) is None, f"{tag} atomic push without conflicts applies everything")
+            for ref in (R1, R2):
+                try:
+                    v = fin.refs[ref]
+                except KeyError:
+                    continue
+                eng.prove(v in fin.object_store, f"{tag} {ref!r} names an object the target has")
+        finally:
+            fin.close()
+        src.close()
+    finally:
+        shutil.rmtree(d_src, ignore_errors=True)
+        shutil.rmtree(d_dst, ignore_errors=True)
+
+
+def checks(tier):
+    q = ("quick", "thorough")
+    return _b06b(tier) + [
+        KCheck("C06b.local_push", h_local_push, parts=[{"atomic": a, "ncmd": n} for a in (False, True) for n in (1, 2)],
+               encoded=["dulwich.client.LocalGitClient.send_pack", "dulwich.refs.DiskRefsContainer.set_if_equals/remove_if_equals",
+                        "dulwich.repo.BaseRepo.generate_pack_data", "dulwich.object_store.DiskObjectStore.add_pack_data"],
+               bounds="target refs one/two each absent, A or B (loose or packed); the pusher updates or deletes one or both; between "
+                      "its snapshot of the target's refs and its updates another actor leaves ref one alone, sets it to A or B, or "
+                      "deletes it; atomic on/off; real repositories on /dev/shm",
+               outside="network transports; hooks; more than one concurrent change", tiers=q),
+    ]
